@@ -252,6 +252,10 @@ CONTRACTS.append(Contract(
     descr="the same hasher object listed twice",
 ))
 
+from contracts import c04_policy  # noqa: E402
+
+CONTRACTS += c04_policy.CONTRACTS
+
 MUTANTS = [
     ("clip: max compared with >=", H, "        if mxd and rounds > mxd:\n            return mxd\n", "        if mxd and rounds >= mxd:\n            return mxd - 1\n", "refute"),
     ("clip: min ignored", H, "        mnd = cls.min_desired_rounds or 0\n", "        mnd = 0\n", "refute"),
@@ -262,4 +266,12 @@ MUTANTS = [
     ("identify_record: last match wins", CTX, "        for record in self._get_record_list(category):\n            if record.identify(hash):", "        for record in reversed(self._get_record_list(category)):\n            if record.identify(hash):", "refute"),
     ("libpass needs_update: any instead of all", LCTX, "        return all(not scheme.identify(hash) for scheme in schemes)", "        return all(not scheme.identify(hash) for scheme in self._schemes)", "refute"),
     ("libpass hash: last scheme", LCTX, "        return self._schemes[0]\n", "        return self._schemes[-1]\n", "refute"),
+    ("is_deprecated: category without its own list no longer inherits", "passlib/context.py", "            source = depmap.get(cat, depmap.get(None))", "            source = depmap.get(cat)", "refute", "is_deprecated_with_flag"),
+    ("is_deprecated: 'auto' compares with the global default", "passlib/context.py", "                return scheme != self.default_scheme(cat)", "                return scheme != self.default_scheme(None)", "refute", "is_deprecated_with_flag"),
+    ("default schemes: category ignores the inherited deprecated list", "passlib/context.py", "            cdeps = dep_map.get(cat, deps)", "            cdeps = dep_map.get(cat) or ()", "refute", "_init_default_schemes"),
+    ("default schemes: deprecated explicit default accepted", "passlib/context.py", "        elif default in deps:\n            raise ValueError(\"default scheme cannot be deprecated\")", "        elif default in deps and not schemes:\n            raise ValueError(\"default scheme cannot be deprecated\")", "refute", "_init_default_schemes"),
+    ("default schemes: category default picked against the global list", "passlib/context.py", "                    if scheme not in cdeps:", "                    if scheme not in deps:", "refute", "_init_default_schemes"),
+    ("needs_update: deprecated schemes flagged only when the record agrees", "passlib/context.py", "        return record.deprecated or record.needs_update(hash, secret=secret)", "        return record.deprecated and record.needs_update(hash, secret=secret)", "refute", "CryptContext.needs_update"),
+    ("hash: category dropped when picking the default record", "passlib/context.py", "        record = self._get_record(scheme, category)\n        strip_unused = self._strip_unused_context_kwds\n        if strip_unused:\n            strip_unused(kwds, record)\n        return record.hash(secret, **kwds)", "        record = self._get_record(scheme, None)\n        strip_unused = self._strip_unused_context_kwds\n        if strip_unused:\n            strip_unused(kwds, record)\n        return record.hash(secret, **kwds)", "refute", "CryptContext.hash"),
+    ("_create_record: deprecated flag not stored", "passlib/context.py", "        subcls.deprecated = deprecated  # attr reserved for this purpose\n", "", "refute", "_create_record"),
 ]
